@@ -140,9 +140,14 @@ Proof.
   - injection H as <-. reflexivity.
 Qed.
 
+Lemma ok_inj_res {A} (x y : A) : Ok x = Ok y -> x = y.
+Proof. intros H; injection H as ->; reflexivity. Qed.
+
 Lemma sw_parenthesis_sigl l r : sw_parenthesis l = Ok r -> sigl r = sigl l.
 Proof.
-  unfold sw_parenthesis. destruct l as [|a l1]; [discriminate|].
+  unfold sw_parenthesis. destruct l as [|a l1]; [intros H; injection H as <-; reflexivity|].
+  destruct l1 as [|b0 l1']; [intros H; apply ok_inj_res in H; rewrite <- H; apply sw_default_sigl|].
+  remember (b0 :: l1') as l1 eqn:El1.
   destruct (sw_pop1 a l1) as [l2|] eqn:E1; cbn [bind]; [|discriminate].
   pose proof (sw_pop1_sigl _ _ _ E1) as H1.
   destruct (rev l2) as [|z r0] eqn:Er; [discriminate|].
